@@ -106,6 +106,56 @@ def sig(n, drop_hash=False, mask=None):
             return True
         return False
 
+    def block_kept(n):
+        """statements and tail of a block that survive vprintln!/hasher removal"""
+        kept = []
+        for s in n["stmts"]:
+            e = s.get("e") if s["k"] == "ExprStmt" else s
+            if is_vprintln(e) or is_vprintln(s):
+                continue
+            if drop(s):
+                continue
+            if drop_hash and s["k"] == "ExprStmt" and e.get("k") == "Block" and not e.get("unsafe"):
+                save = set(tainted)
+                k2, t2 = block_kept(e)
+                tainted.clear()
+                tainted.update(save)
+                if not k2 and t2 is None:
+                    continue        # a cfg(hash) block that held only hasher statements (and lets feeding them)
+            kept.append(s)
+        if drop_hash:
+            # a pure `let` whose bindings are only used by dropped (hasher) statements is dead without them
+            dropped = [x for x in n["stmts"] if not any(x is k_ for k_ in kept)]
+            changed = True
+            while changed and dropped:
+                changed = False
+                for st in list(kept):
+                    if st["k"] != "LetStmt" or st.get("init") is None or not is_leaf_stmt(st) or not _pure(st["init"]):
+                        continue
+                    lids = _bound_lids(st["pat"])
+                    if not lids:
+                        continue
+                    used_kept = any(x.get("k") == "Local" and x.get("lid") in lids
+                                    for o in kept if o is not st for x, _ in H.walk(o.get("e") or o.get("init") or o))
+                    used_tail = n.get("expr") is not None and any(x.get("k") == "Local" and x.get("lid") in lids for x, _ in H.walk(n["expr"]))
+                    used_dropped = any(x.get("k") == "Local" and x.get("lid") in lids
+                                       for o in dropped for x, _ in H.walk(o.get("e") or o.get("init") or o))
+                    if used_dropped and not used_kept and not used_tail:
+                        kept.remove(st)
+                        dropped.append(st)
+                        changed = True
+        tail = n.get("expr")
+        if tail is not None and drop_hash and tail.get("k") == "Block" and not tail.get("unsafe"):
+            save = set(tainted)
+            k2, t2 = block_kept(tail)
+            tainted.clear()
+            tainted.update(save)
+            if not k2 and t2 is None:
+                tail = None
+        if tail is None and kept and kept[-1]["k"] == "ExprStmt" and not kept[-1].get("semi"):
+            tail = kept.pop()["e"]       # `stmt` without semicolon in last position is the tail
+        return kept, tail
+
     def pat(p):
         k = p["k"]
         out.append("P:" + k)
@@ -150,32 +200,7 @@ def sig(n, drop_hash=False, mask=None):
             return
         out.append(k)
         if k == "Block":
-            kept = []
-            for s in n["stmts"]:
-                e = s.get("e") if s["k"] == "ExprStmt" else s
-                if is_vprintln(e) or is_vprintln(s):
-                    continue
-                if drop(s):
-                    continue
-                # a block that only held dropped statements disappears too
-                if drop_hash and s["k"] == "ExprStmt" and e.get("k") == "Block" and not e.get("unsafe"):
-                    save = set(tainted)
-                    inner = [x for x in e["stmts"] if not (is_vprintln(x.get("e", x)) or drop(x))]
-                    tainted.clear()
-                    tainted.update(save)
-                    if not inner and e.get("expr") is None:
-                        continue
-                kept.append(s)
-            tail = n.get("expr")
-            if tail is not None and drop_hash and tail.get("k") == "Block" and not tail.get("unsafe") and tail.get("expr") is None:
-                save = set(tainted)
-                inner = [x for x in tail["stmts"] if not (is_vprintln(x.get("e", x)) or drop(x))]
-                tainted.clear()
-                tainted.update(save)
-                if not inner:
-                    tail = None     # a cfg(hash) block in tail position that held only hasher statements
-            if tail is None and kept and kept[-1]["k"] == "ExprStmt" and not kept[-1].get("semi"):
-                tail = kept.pop()["e"]       # `stmt` without semicolon in last position is the tail
+            kept, tail = block_kept(n)
             for s in kept:
                 e = s.get("e") if s["k"] == "ExprStmt" else s
                 if s["k"] == "LetStmt":
@@ -240,6 +265,34 @@ def sig(n, drop_hash=False, mask=None):
             rec(c)
     rec(n)
     return out
+
+
+def _bound_lids(p):
+    out, stack = set(), [p]
+    while stack:
+        q = stack.pop()
+        if q.get("k") == "Bind":
+            out.add(q["lid"])
+        for key in ("pats", "before", "after"):
+            stack.extend(q.get(key) or [])
+        for key in ("sub", "mid"):
+            if q.get(key):
+                stack.append(q[key])
+        for f_ in q.get("fields") or []:
+            stack.append(f_["pat"])
+    return out
+
+
+def _pure(e):
+    for x, _ in H.walk(e):
+        k = x.get("k")
+        if k in ("Assign", "AssignOp", "Try", "Closure", "Ret", "Break", "Continue"):
+            return False
+        if k == "MethodCall" and x.get("recv_ty", "").startswith("&mut"):
+            return False
+        if k == "AddrOf" and x.get("mut"):
+            return False
+    return True
 
 
 def digest(tokens):
